@@ -137,6 +137,10 @@ GUARDS = [
         'as_balance_lval() /= val.as_amount();']),
     (['C04', 'C08'], 'parse_teaches_style_and_precision', 'src/amount.cc', r'bool\s+amount_t::parse\s*\(\s*std::istream&\s*in', [
         'else if (commodity_ && ! no_migrate_style) { commodity().add_flags(comm_flags); if (new_quantity->prec > commodity().precision()) commodity().set_precision(new_quantity->prec); }']),
+    (['C04'], 'format_directive_fixes', 'src/textual.cc', r'void\s+instance_t::commodity_format_directive\s*\(', [
+        'amt.parse(format, PARSE_NO_REDUCE);', 'amt.commodity().add_flags(COMMODITY_STYLE_NO_MIGRATE);']),
+    (['C04'], 'no_migrate_read_from_commodity', 'src/amount.cc', r'bool\s+amount_t::parse\s*\(\s*std::istream&\s*in', [
+        'bool no_migrate_style = commodity().has_flags(COMMODITY_STYLE_NO_MIGRATE);']),
     (['C04'], 'needs_quotes_uses_table', 'src/commodity.cc', r'bool\s+commodity_t::symbol_needs_quotes\s*\(', [
         'foreach (char ch, symbol) if (invalid_chars[static_cast<unsigned char>(ch)]) return true;',
         'return is_reserved_token(symbol.c_str());']),
